@@ -336,7 +336,7 @@ impl Property for C20 {
                             return Err(describe(&format!("the walk feeds an entry downstream more than once: {:?}", log)));
                         }
                         let yielded = o.items.iter().filter_map(|i| i.rel.clone()).collect();
-                        match observe(&entries, g, fed, yielded, false) {
+                        match observe(&entries, g, fed, yielded, true) {
                             Ok(ob) => Some(ob),
                             Err(m) => return Err(describe(&m)),
                         }
